@@ -21,4 +21,4 @@ pub mod witness;
 
 #[cfg(kani)]
 #[path = "/verif/units/kani/core_lib.rs"]
-mod verif_kani;
+pub(crate) mod verif_kani;
